@@ -185,6 +185,10 @@ where
             let trimmed = v.trim();
 
             match trimmed.strip_prefix('+') {
+                // `UInt::from_str` accepts a leading `+` itself; a second sign is not an integer.
+                Some(without) if without.starts_with('+') => {
+                    Err(E::custom("invalid digit found in string"))
+                }
                 Some(without) => without.parse::<UInt>().map(|u| u.into()).map_err(E::custom),
                 None => trimmed.parse().map_err(E::custom),
             }
